@@ -1,4 +1,5 @@
 import T4V.Proofs.GeomParse
+import T4V.Proofs.GeomFuel
 import T4V.Proofs.NormLayoutTree
 /-!
 # Property C11 — cell expressions denote the Boolean function MCNP assigns to them
@@ -61,6 +62,29 @@ theorem layout_meaning (σ : SurfVal) (cv : Nat → Bool) (u : NL.LU) (g0 : List
     ∃ g', pUnion u.erase.cost (normalize (u.text g0)) = .ok (g', []) ∧ g'.eval σ cv = u.erase.eval σ cv := by
   rw [normalize_any_layout u g0 hw hg h0 hl]
   exact parse_meaning σ cv u.erase g hw hz ht
+
+/-- (1′) **the parser entry point itself** (`parseGeom` = `get_ast`: normalise, parse with the fuel the model
+provides, demand that the whole text is consumed): whenever a text normalises to the canonical spelling of a
+well-formed expression, the result is the tree MCNP's reading prescribes — the fuel `3·length + 3` is enough for
+every expression. -/
+theorem parseGeom_canonical (s : String) (u : SU) (g : Geom) (hw : u.WF) (ht : u.tree = some g)
+    (hs : normalize s.toList = u.chars) : parseGeom s = .ok g := by
+  have hf : u.cost ≤ 3 * u.chars.length + 3 := Nat.le_succ_of_le (SU.cost_le u hw)
+  simp only [parseGeom, hs, parse_render u g hw ht _ hf]
+
+/-- (0)+(1′): **`get_ast` on any legal layout** of the expression returns MCNP's tree -/
+theorem parseGeom_any_layout (u : NL.LU) (g0 : List Char) (g : Geom) (hw : u.erase.WF) (hg : u.GapsWs)
+    (h0 : NL.AllWs g0) (hl : NL.LegalFrom none g0 u.toks) (ht : u.erase.tree = some g) :
+    parseGeom (String.ofList (u.text g0)) = .ok g :=
+  parseGeom_canonical _ u.erase g hw ht (by rw [String.toList_ofList]; exact normalize_any_layout u g0 hw hg h0 hl)
+
+/-- (0)+(1′)+(2): the tree `get_ast` returns for any legal layout evaluates to MCNP's Boolean function of the
+expression, for every assignment of senses -/
+theorem parseGeom_meaning (σ : SurfVal) (cv : Nat → Bool) (u : NL.LU) (g0 : List Char) (g : Geom) (hw : u.erase.WF)
+    (hz : u.erase.NZ) (hg : u.GapsWs) (h0 : NL.AllWs g0) (hl : NL.LegalFrom none g0 u.toks)
+    (ht : u.erase.tree = some g) :
+    parseGeom (String.ofList (u.text g0)) = .ok g ∧ g.eval σ cv = u.erase.eval σ cv :=
+  ⟨parseGeom_any_layout u g0 g hw hg h0 hl ht, parsed_tree_meaning σ cv u.erase g hz ht⟩
 
 /-! Non-vacuity: a concrete expression `-1 (2:-3.1) #(4 5) #7` meets every hypothesis. -/
 def exLit (neg : Bool) (d : Char) (facet : Option Char) : Lit :=
